@@ -21,7 +21,6 @@ import (
 	storetypes "github.com/cosmos/cosmos-sdk/store/v2/types"
 	simtestutil "github.com/cosmos/cosmos-sdk/testutil/sims"
 	sdk "github.com/cosmos/cosmos-sdk/types"
-	banktypes "github.com/cosmos/cosmos-sdk/x/bank/types"
 
 	abci "github.com/cometbft/cometbft/abci/types"
 	cmtproto "github.com/cometbft/cometbft/proto/tendermint/types"
@@ -76,6 +75,7 @@ type CbObs struct {
 type CbState struct {
 	Commitment bool   `json:"commitment"`
 	Sbal       int64  `json:"sbal"`
+	Esc        int64  `json:"esc"`
 	Receipt    bool   `json:"receipt"`
 	Ack        string `json:"ack"`
 	Rbal       int64  `json:"rbal"`
@@ -131,6 +131,9 @@ type hookEvent struct {
 
 var hookLog []hookEvent
 
+// directCall is set while the driver itself plays the transaction (write-ack cases): the context then has no exec mode
+var directCall bool
+
 // setupCbApp builds the callbacks test application; its ante handler chain is wrapped so that the gas meter the
 // messages run with is observable (nothing else changes).
 func setupCbApp() (ibctesting.TestingApp, map[string]json.RawMessage) {
@@ -170,7 +173,7 @@ func absType(t callbacktypes.CallbackType) string {
 // scoped to one callback type: the address is "<type>:<behaviour>".
 func contract(k *cbsimapp.ContractKeeper, ctx sdk.Context, typ callbacktypes.CallbackType, addr string) (err error) {
 	t := absType(typ)
-	if ctx.ExecMode() == sdk.ExecModeFinalize {
+	if ctx.ExecMode() == sdk.ExecModeFinalize || directCall {
 		hookLog = append(hookLog, hookEvent{chain: ctx.ChainID(), typ: t, limit: ctx.GasMeter().Limit()})
 	}
 	gasRemaining := ctx.GasMeter().GasRemaining()
@@ -233,6 +236,8 @@ type CbWorld struct {
 	// current case
 	proto      string
 	sb0, rb0   sdkmath.Int
+	eb0        sdkmath.Int
+	escrow     sdk.AccAddress
 	pktV1      *channeltypes.Packet
 	pktV2      *channeltypesv2.Packet
 	asyncSeq   uint64
@@ -352,7 +357,8 @@ func (w *CbWorld) digest(chain *ibctesting.TestChain) string {
 	ctx := chain.GetContext()
 	app := cbApp(chain)
 	h := sha256.New()
-	for _, key := range []string{ibcexported.StoreKey, banktypes.StoreKey, transfertypes.StoreKey} {
+	// (the bank store changes in every block through minting: balances are projected individually instead)
+	for _, key := range []string{ibcexported.StoreKey, transfertypes.StoreKey} {
 		h.Write([]byte(lib.DigestOf(ctx, app.GetKey(key))))
 	}
 	h.Write([]byte(lib.DigestOf(ctx, app.GetMemKey(ibcmock.MemStoreKey))))
@@ -373,6 +379,7 @@ func (w *CbWorld) State() CbState {
 	appA, appB := cbApp(w.A), cbApp(w.B)
 	st := CbState{Ack: "none"}
 	st.Sbal = rel(appA.BankKeeper.GetBalance(ctxA, w.A.SenderAccount.GetAddress(), sdk.DefaultBondDenom).Amount, w.sb0)
+	st.Esc = rel(appA.BankKeeper.GetBalance(ctxA, w.escrow, sdk.DefaultBondDenom).Amount, w.eb0)
 	st.Rbal = rel(appB.BankKeeper.GetBalance(ctxB, w.B.SenderAccount.GetAddress(), w.voucher).Amount, w.rb0)
 	st.CntA = int64(appA.MockContractKeeper.GetStateEntryCounter(ctxA))
 	st.CntB = int64(appB.MockContractKeeper.GetStateEntryCounter(ctxB))
@@ -503,6 +510,11 @@ func (w *CbWorld) Run(c CbCase, emit func(CbLine)) {
 	} else {
 		w.voucher = transfertypes.NewDenom(sdk.DefaultBondDenom, transfertypes.NewHop(ep.EndpointB.ChannelConfig.PortID, ep.EndpointB.ChannelID)).IBCDenom()
 	}
+	w.escrow = transfertypes.GetEscrowAddress(transfertypes.PortID, ep.EndpointA.ChannelID)
+	if c.Proto == "v2" {
+		w.escrow = transfertypes.GetEscrowAddress(transfertypes.PortID, ep.EndpointA.ClientID)
+	}
+	w.eb0 = cbApp(w.A).BankKeeper.GetBalance(ctxA, w.escrow, sdk.DefaultBondDenom).Amount
 	w.sb0 = cbApp(w.A).BankKeeper.GetBalance(ctxA, w.A.SenderAccount.GetAddress(), sdk.DefaultBondDenom).Amount
 	w.rb0 = cbApp(w.B).BankKeeper.GetBalance(ctxB, w.B.SenderAccount.GetAddress(), w.voucher).Amount
 
@@ -678,8 +690,10 @@ func (w *CbWorld) writeAckDirect(p channeltypes.Packet, gas uint64) (res string,
 	meter := &spyMeter{GasMeter: storetypes.NewGasMeter(gas), chain: w.B.ChainID}
 	cctx, write := ctx.WithGasMeter(meter).CacheContext()
 	ics4 := cbApp(w.B).TransferKeeper.GetICS4Wrapper()
+	directCall = true
 	func() {
 		defer func() {
+			directCall = false
 			if r := recover(); r != nil {
 				res, errStr = "err", fmt.Sprintf("panic: %v", r)
 			}
